@@ -609,6 +609,30 @@ func (h *c17Run) passThrough() error {
 	r := g.r
 	w := []float32{1, 0.5, 3}[r.IntN(3)]
 	flat := querySpec{kind: "flat", prop: "fv", vec: g.genVec(g.dim), limit: []int{1, 3, 10}[r.IntN(3)], weight: &w}
+	// two points at the same distance on either side of the ranking cut: which of them the sub-query returns is
+	// not determined, and with it which points the filter adds -- two runs of the same search may then differ in
+	// more than the order (thorough run, seed 1, history 9: a false alarm of this comparison). Such a request is not
+	// compared.
+	tie := false
+	perr := h.cl.withShard(h.col, h.col.ShardIds[0], func(s *shard.Shard) error {
+		probe := flat
+		probe.limit, probe.weight = 75, nil
+		pres, err := s.SearchPoints(requestSpec{q: probe, limit: 100}.model())
+		if err != nil {
+			return err
+		}
+		if k := flat.limit; k < len(pres) && pres[k-1].Distance != nil && pres[k].Distance != nil && *pres[k-1].Distance == *pres[k].Distance {
+			tie = true
+		}
+		return nil
+	})
+	if perr != nil {
+		return fmt.Errorf("direct shard search: %w", perr)
+	}
+	if tie {
+		h.note("pass-through skipped: tie at the ranking cut")
+		return nil
+	}
 	rq := requestSpec{q: querySpec{kind: "or", subs: []querySpec{flat, h.allQuery()}}, limit: 100}
 	res, err := h.cl.nodes[h.entry].SearchPoints(h.col, rq.model())
 	out := "(QError 9)"
@@ -680,6 +704,26 @@ func (h *c17Run) genUpdate() []pointSpec {
 	}
 	r.Shuffle(len(ps), func(a, b int) { ps[a], ps[b] = ps[b], ps[a] })
 	return ps
+}
+
+// genUpdateBad: an update request one of whose points does not fit its collection (a string for the integer index
+// "i"): the shard that holds the point refuses its whole part of the request, the other shards apply theirs
+func (h *c17Run) genUpdateBad() []pointSpec {
+	ps := h.genUpdate()
+	live := h.liveSorted()
+	if len(live) == 0 {
+		return nil
+	}
+	bad := live[h.g.r.IntN(len(live))]
+	out := ps[:0:0]
+	for _, p := range ps {
+		if p.id != bad {
+			out = append(out, p)
+		}
+	}
+	k := h.g.r.IntN(len(out) + 1)
+	out = append(out[:k:k], append([]pointSpec{{id: bad, doc: vMap(KV{"i", vStr("not a number")})}}, out[k:]...)...)
+	return out
 }
 
 func (h *c17Run) genDelete() []uuid.UUID {
@@ -836,6 +880,17 @@ func c17History(seed uint64, idx int, big bool) (res c17Hist, err error) {
 		}
 		if err := h.searches(3); err != nil {
 			return res, err
+		}
+		if idx%2 == 1 {
+			if bad := h.genUpdateBad(); bad != nil {
+				if err := h.update(bad); err != nil {
+					return res, err
+				}
+				h.note("update refused by one shard (ill-typed indexed field)")
+				if err := h.searches(1); err != nil {
+					return res, err
+				}
+			}
 		}
 		if err := h.delete(h.genDelete()); err != nil {
 			return res, err
